@@ -35,6 +35,22 @@ THEOREMS = {
         ("HH.C02.auto_eq_portable", "∀ Cfg Cpu: the back end chosen by the selection ladder gives the portable result"),
         ("HH.C02.sse_eq_spec64", "SSE = HighwayHash spec (64 bit)"), ("HH.C02.avx_eq_spec256", "AVX = HighwayHash spec (256 bit)"),
     ]),
+    "C03": dict(module="HH.Props.C03", trusted=MODEL_TRUST + ["semantics of the NEON intrinsics in HH/Intrin/Neon.lean (Arm pseudo-code), validated against stdarch as interpreted by Miri; vshlq_u32 additionally through the runner's USHL shim", "Miri (aarch64-unknown-linux-gnu) as interpreter of the real src/aarch64.rs: not silicon"], theorems=[
+        ("HH.C03.neon_hash64", "∀ k d, Neon finalize64 (append (new k) d) = P.hash64 k d"), ("HH.C03.neon_hash128", "same, 128"), ("HH.C03.neon_hash256", "same, 256"),
+        ("HH.C03.neon_streamed", "any chunking on NEON = portable"),
+        ("HH.C03.neon_checkpoint_bytes", "NEON checkpoint bytes = any back end's bytes for the same stream"),
+        ("HH.C03.neon_restores_any", "NEON restores any back end's checkpoint transparently"),
+        ("HH.C03.any_restores_neon", "any back end restores a NEON checkpoint transparently"),
+        ("HH.C03.neon_eq_spec64", "NEON = HighwayHash spec"),
+    ]),
+    "C04": dict(module="HH.Props.C04", trusted=MODEL_TRUST + ["semantics of the wasm simd128 intrinsics in HH/Intrin/Wasm.lean (WebAssembly SIMD spec), validated against stdarch as interpreted by Miri", "Miri (wasm32-unknown-unknown +simd128) as interpreter of the real src/wasm.rs: not a wasm engine"], theorems=[
+        ("HH.C04.wasm_hash64", "∀ k d, Wasm finalize64 (append (new k) d) = P.hash64 k d"), ("HH.C04.wasm_hash128", "same, 128"), ("HH.C04.wasm_hash256", "same, 256"),
+        ("HH.C04.wasm_streamed", "any chunking on Wasm = portable"),
+        ("HH.C04.wasm_checkpoint_bytes", "Wasm checkpoint bytes = any back end's bytes for the same stream"),
+        ("HH.C04.wasm_restores_any", "Wasm restores any back end's checkpoint transparently"),
+        ("HH.C04.any_restores_wasm", "any back end restores a Wasm checkpoint transparently"),
+        ("HH.C04.wasm_eq_spec64", "Wasm = HighwayHash spec"),
+    ]),
     "C05": dict(module="HH.Props.C05", trusted=MODEL_TRUST + SIMD_TRUST, theorems=[
         ("HH.C05.streaming", "∀ hasher (any back end, packet invariant) chunks width: foldl append then finalize = append (flatten) then finalize"),
         ("HH.C05.streaming2", "two chunkings of the same data give the same result"),
@@ -136,7 +152,7 @@ LEVEL.update({"C16": "translation_validation", "C17": "translation_validation", 
 EXPLAIN = {"C18": "A functional model has no heap, so the deciding evidence is (a) the kernel-checked theorems over the regenerated source facts (no allocation-capable name outside #[cfg(test)], no alloc crate, std used only for io::Write), (b) the allocation observable of the correspondence: a counting #[global_allocator] around every real operation (construction, appends 0 B..MiB, write, finish, clone, checkpoint, restore, Debug into a stack sink, finalize; std and no_std; all native back ends) must report 0, and (c) the no_std rlib references no allocator symbol."}
 ASSUME = {
     k: ["the Lean model corresponds to the code: established for this run by the differential correspondence stream (see coverage.traces_validated_against_impl / model_disagreements)",
-        "rustc/LLVM compile the crate according to Rust semantics"] for k in ["C01", "C02", "C05", "C06", "C07", "C08", "C10", "C11", "C12", "C13", "C14", "C15"]
+        "rustc/LLVM compile the crate according to Rust semantics"] for k in ["C01", "C02", "C03", "C04", "C05", "C06", "C07", "C08", "C10", "C11", "C12", "C13", "C14", "C15"]
 }
 SPECIAL = {}
 PRE = {}
